@@ -199,10 +199,16 @@ impl Script {
             Some(Rd::Data(mut d)) => {
                 let n = d.len().min(buf.len());
                 if n == 0 {
-                    // empty chunk or empty buffer: behaves as Ok(0)
                     if !d.is_empty() {
+                        // The library offered a zero-length buffer while data is available: `Read::read`
+                        // must return Ok(0), which the caller will take for end of stream. Logged as a
+                        // distinct event so that this is never mistaken for a real EOF of the transport.
                         self.rds.push_front(Rd::Data(d));
+                        self.log.push("R:EMPTYBUF".into());
+                        self.actual_rds.push("eof".into());
+                        return Ok(0);
                     }
+                    // empty chunk: behaves as Ok(0)
                     self.log.push("R:eof".into());
                     self.actual_rds.push("eof".into());
                     return Ok(0);
